@@ -1,6 +1,7 @@
 package livechk
 
 import (
+	"bytes"
 	"fmt"
 	"math/rand"
 	"regexp"
@@ -254,9 +255,26 @@ func sessionC14(r *vk.Run, rng *rand.Rand, idx int) {
 					}
 					b = append(b, []byte(fmt.Sprintf("\x1b[<32;%d;%dM", x, y))...)
 				}
+				var rel []byte
 				if rng.Intn(5) > 0 {
-					b = append(b, []byte(fmt.Sprintf("\x1b[<0;%d;%dm", x, y))...)
+					rel = []byte(fmt.Sprintf("\x1b[<0;%d;%dm", x, y))
 				}
+				if hasPreview && rng.Intn(2) == 0 {
+					// the window a drag started in disappears (or comes back) while the button is held
+					cut := bytes.Index(b[1:], []byte("\x1b[<32;")) + 1
+					if cut <= 0 {
+						cut = len(b)
+					}
+					s.SendRaw(b[:cut])
+					hist = append(hist, fmt.Sprintf("DRAG %q", b[:cut]))
+					s.WaitConsumed(2 * time.Second)
+					a := []string{"toggle-preview", "toggle-preview", "change-preview-window(hidden|)", "toggle-preview+toggle-preview"}[rng.Intn(4)]
+					s.Post(a)
+					hist = append(hist, "POST "+a)
+					s.WaitConsumed(5 * time.Second)
+					b = append(append([]byte{}, b[cut:]...), []byte(fmt.Sprintf("\x1b[<32;%d;%dM\x1b[<32;%d;%dM", x, y+2, x, y-3+rng.Intn(3)))...)
+				}
+				b = append(b, rel...)
 				s.SendRaw(b)
 				hadRaw = true
 				hist = append(hist, fmt.Sprintf("DRAG %q", b))
